@@ -67,6 +67,8 @@ def run_profile(ctx, prop, profile, nseq, nops, size, kinds=None, seed_off=0, sh
     with ThreadPoolExecutor(max_workers=min(12, max(1, len(res)))) as pool:
         judged = list(pool.map(lambda r_: vlib.run_drv(r_['trace'], noabs=True) if survive_only else judge_trace(r_['trace']), res))
     for r, (steps, done) in zip(res, judged):
+        if len([x for x in fails if not getattr(x, 'foreign', False) and not getattr(x, 'kf', None)]) >= 5:
+            break   # five violations of this property from one workload are enough (each costs replays)
         stats['sequences'] += 1
         for k, v in (r.get('hist') or {}).items():
             stats['hist'][k] = stats['hist'].get(k, 0) + v
@@ -151,7 +153,7 @@ def run_profile(ctx, prop, profile, nseq, nops, size, kinds=None, seed_off=0, sh
         # a sequential history is deterministic up to the timing of background threads: a failure that the same
         # operations do not show again in two further runs is recorded as an unreproduced observation (trace kept
         # under .work/failed_traces), not reported as a violation - a violation comes with a replay that replays
-        if owned_here and small is ops:
+        if owned_here and small is ops and (kind, proc) not in stats.setdefault('reproduced_sigs', set()):
             again = False
             for _ in range(2):
                 ss2, _, _ = vlib.judge_ops(hdr, ops, 'again')
@@ -159,6 +161,8 @@ def run_profile(ctx, prop, profile, nseq, nops, size, kinds=None, seed_off=0, sh
                        if (x['panic'] or not x['reply'] or x['nabs'] or x['nwf'] or not x['alloc'] or not x.get('trace', 1))):
                     again = True
                     break
+            if again:
+                stats['reproduced_sigs'].add((kind, proc))   # later sequences with the same signature are believed
             if not again:
                 stats.setdefault('unreproduced', []).append('%s/%s/%s step %s of %s seq %d' % (kind, proc, detail[:80], st['id'], profile, r['index']))
                 continue
